@@ -112,7 +112,7 @@ func RunRules(p *Program, property string, rules []*Rule, findings []Finding, re
 	violations, undecided := 0, 0
 	usedFinding := map[int]bool{}
 	for _, r := range rules {
-		obs := safeRun(p, r)
+		obs := dedupe(safeRun(p, r))
 		rr := &RuleReport{Rule: r.ID, Text: r.Text, Floor: r.Floor}
 		sort.SliceStable(obs, func(i, j int) bool { return obs[i].Construct < obs[j].Construct })
 		for i := range obs {
@@ -184,6 +184,26 @@ func RunRules(p *Program, property string, rules []*Rule, findings []Finding, re
 		rep.ExitCode = 2
 	}
 	return rep
+}
+
+// dedupe merges obligations with the same construct key (the same construct reached from several
+// analysis roots); the worst verdict wins.
+func dedupe(obs []Obligation) []Obligation {
+	rank := map[string]int{Discharged: 0, Known: 1, AnchorLost: 2, Undecided: 3, Violated: 4}
+	idx := map[string]int{}
+	var out []Obligation
+	for _, o := range obs {
+		k := o.Rule + "|" + o.Construct
+		if i, ok := idx[k]; ok {
+			if rank[o.Verdict] > rank[out[i].Verdict] {
+				out[i] = o
+			}
+			continue
+		}
+		idx[k] = len(out)
+		out = append(out, o)
+	}
+	return out
 }
 
 func safeRun(p *Program, r *Rule) (obs []Obligation) {
